@@ -407,6 +407,19 @@ def formatDt (d : DateTime) (fmt : Text) : Outcome Text :=
     | some ds => .ok (strftime ds d)
     | none => .escape .other
 
+/-- `struct.unpack("<p>s<q>s" + str(n) + "s", data)`: three byte strings; struct.error unless `n ≥ 0` and the data is
+    exactly `p + q + n` bytes long -/
+def unpack3 (p q : Nat) (n : Int) (data : Bytes) : Outcome (Bytes × Bytes × Bytes) :=
+  if n < 0 ∨ (data.length : Int) ≠ (p : Int) + (q : Int) + n then .escape .structError
+  else .ok (data.take p, (data.drop p).take q, data.drop (p + q))
+
+/-- `int(v)` for a decoded value -/
+def pyvalInt (k : IntClasses) : PyVal → Outcome Int
+  | .str t => intOfStr k t
+  | .int i => .ok i
+  | .dec d => decToInt d
+  | .dt _ => .escape .typeError
+
 /-- `range(a, b)` -/
 def range (a b : Int) : List Int := (List.range (b - a).toNat).map (fun (i : Nat) => a + (i : Int))
 
